@@ -57,12 +57,14 @@ JOBS = {
     "C07": [
         {"cmd": "c07-xproto", "race": False, "batches": {"quick": 4, "thorough": 16}, "timeout": {"quick": 600, "thorough": 2400}, "mem_kb": 8000000},
         {"cmd": "c07-match", "race": False, "timeout": {"quick": 300, "thorough": 900}},
+        {"cmd": "c07-e2e", "race": False, "batches": {"quick": 2, "thorough": 4}, "timeout": {"quick": 600, "thorough": 2400}},
     ],
     "C08": [
         {"cmd": "c08-codec", "race": True, "batches": {"quick": 12, "thorough": 16}, "timeout": {"quick": 900, "thorough": 3000},
          "fatal_is_violation": True},
         {"cmd": "c08-h2", "race": False, "batches": {"quick": 4, "thorough": 12}, "timeout": {"quick": 600, "thorough": 2400},
          "fatal_is_violation": True, "mem_kb": 12000000},
+        {"cmd": "c08-e2e", "race": True, "batches": {"quick": 2, "thorough": 4}, "timeout": {"quick": 600, "thorough": 2400}, "fatal_is_violation": True},
     ],
     "C09": [
         {"cmd": "c09-engine", "race": True, "batches": {"quick": 2, "thorough": 6}, "timeout": {"quick": 900, "thorough": 3600}},
